@@ -691,6 +691,13 @@ func (d *Dialer) Wait(timeout time.Duration) *DialOp {
 	}
 }
 
+// Pending returns the dials currently waiting for the controller (oldest first).
+func (d *Dialer) Pending() []*DialOp {
+	d.mu.Lock()
+	defer d.mu.Unlock()
+	return append([]*DialOp(nil), d.pending...)
+}
+
 // Count returns the number of Dial calls seen so far.
 func (d *Dialer) Count() int {
 	d.mu.Lock()
